@@ -211,6 +211,16 @@ func main() {
 					s = append(s, a)
 				}
 			}
+			if rng.Intn(3) == 0 {
+				// an identity no longer than the subject that names, with an empty value, an attribute the subject lacks
+				for _, ty := range types {
+					if !hasT(base, ty) {
+						s = append(s, av{ty, ""})
+						c.Shape = "subset+absent-empty-value"
+						break
+					}
+				}
+			}
 			c.Identities = [][]av{s}
 		case 2:
 			c.Shape = "superset"
